@@ -115,8 +115,8 @@ CLAIMED['C05'] = {
     'text': 'Static: the validator stack checked as a dominance / error-propagation structure: each cumulative validator '
             'passes (success edge) every leaf checker of its level and the lower cumulative validator before Ok; the '
             'guarantee-dependent link checkers are passed on the true edge of their predicates; no validator drops or '
-            'swallows a checker result; each diagnostic report reaches the leaves its validator reaches (one reasoned '
-            'asymmetry). Decides "cumulative = conjunction of levels" and "nothing is skipped or swallowed"; not that each '
+            'swallows a checker result; each diagnostic report reaches the leaves its validator reaches. '
+            'Decides "cumulative = conjunction of levels" and "nothing is skipped or swallowed"; not that each '
             'leaf detects its fault class.',
     'note': 'Trusted: rustc MIR; the Level 1-3 leaf tables in engine/rules/tables.py; a checker returning a verdict '
             'record (Euler) is only required to be called. The single-fault injection of the property is not simulated.',
